@@ -11,6 +11,7 @@
 import SA.Proofs.DnsServer
 import SA.Proofs.DnsServerClient
 import SA.Model.DnsServerSites
+import SA.Proofs.DnsStray
 import SA.Props.C13
 
 namespace SA.Props.C12
@@ -163,6 +164,98 @@ theorem C12_stray_preserves_sessions (cd : Codec) (dom : List Nat) (σ : Srv) (h
       | badIp _ _ _ => exact Or.inl rfl
       | ok s _ ho => exact Or.inr ⟨s, ho, rfl⟩
 
+/-! ## well-formed commands that do not belong
+
+  `C12_stray_preserves_sessions` is about messages that are not tunnel commands.  The statements below are about
+  messages that ARE: every command letter, every identifier, every flag and field combination — sent by an address
+  that is not the owner of the session they name. -/
+
+/-- regenerated fact: in each of the four handlers of a session-bound command (packet, set-options, fragment-size
+    test, upstream-codec test) the statement after `…, err := s.validateAndGetUser(…)` is
+    `if err != nil { resp.Err = err } else …` — nothing the request carries (close flag, options, payload,
+    acknowledgement) is acted on before the sender has been validated as the owner (the model's
+    `match user, e with | some s, .ok => …`).  Fails to compile when a handler looks at the request first. -/
+theorem C12_handlers_refuse_before_acting :
+    SA.Gen.handlerRefusesFirst.map (·.1) = ["packet", "setOptionsRequest", "testDownstreamFragmentSize", "testUpstreamEncoder"] ∧
+    SA.Gen.handlerRefusesFirst.all (·.2) = true := by decide
+
+/-- **a stranger's commands are inert**: an address that owns no live session — whatever it sends: any command
+    letter, any identifier (of a live session, of a retired one, never issued), the close flag, codec and fragment
+    size options, payload, acknowledgements, well-formed or not — leaves the WHOLE server state as it was (tables,
+    every session object, clock); the only thing it can do is open a session of its own with a version request
+    (`newUser`: a free slot, a new object, see `C13_open_returns_free_id`).  Every state, every codec. -/
+theorem C12_stranger_commands_inert (cd : Codec) (dom : List Nat) (σ σ' : Srv) (m : Msg) (a : Ans)
+    (hstranger : ∀ i sid : Nat, σ.live[i]? = some (some sid) → (σ.sess sid).owner ≠ m.addr)
+    (h : onMessage cd dom σ m = ok (σ', a)) :
+    σ' = σ ∨ ∃ uid, newUser σ m.addr = (σ', some uid) :=
+  onMessage_stranger cd dom m a hstranger h
+
+/-- … hence the rest of the history is what it would have been without the message: a stranger's message that
+    creates no session object can be deleted from any history without changing the state any later message (of the
+    established sessions' owners, of anybody) meets — the statement the harness checks on the real server by running
+    every history a second time without such messages. -/
+theorem C12_stranger_message_deletable (cd : Codec) (dom : List Nat) (σ : Srv) (m : Msg) (rest : List Op)
+    (hstranger : ∀ i sid : Nat, σ.live[i]? = some (some sid) → (σ.sess sid).owner ≠ m.addr)
+    (hnoopen : ∀ σ' a, onMessage cd dom σ m = ok (σ', a) → σ'.heap.length = σ.heap.length) :
+    run cd dom σ (.msg m :: rest) = run cd dom σ rest := by
+  have hstep : step cd dom σ (.msg m) = σ := by
+    cases hm : onMessage cd dom σ m with
+    | panic => simp [step, stepAns, hm]
+    | ok r =>
+      obtain ⟨σ', a⟩ := r
+      have hst : step cd dom σ (.msg m) = σ' := by simp [step, stepAns, hm]
+      rw [hst]
+      rcases onMessage_stranger cd dom m a hstranger hm with e | ⟨uid, e⟩
+      · exact e
+      · have hlen := hnoopen σ' a hm
+        rcases newUser_cases e with hc | ⟨i, _, _, hc⟩
+        · exact hc.1
+        · rw [hc] at hlen; simp at hlen
+  unfold run
+  rw [List.foldl_cons, hstep]
+
+/-- **no command from another address disturbs an established session** (every sender, also one that owns other
+    sessions): for every message and every session object owned by another address — the object is byte-for-byte
+    unchanged (queues, sequence and acknowledgement numbers, codecs, options, closed flag, last-contact time) and
+    still live in its slot; and when the message carries the identifier of that session (a spoofed close, option
+    change, packet, test), NOTHING in the server changed and the sender was told BADIP (or BADCODEC, or nothing).
+    Reuses `C13_foreign_message_preserves` and `C13_spoof_rejected`. -/
+theorem C12_foreign_command_preserves_established (cd : Codec) (hT : cd.Total) (dom : List Nat) (σ : Srv) (hI : Inv σ) (m : Msg)
+    (i sid : Nat) (hlive : σ.live[i]? = some (some sid)) (hforeign : (σ.sess sid).owner ≠ m.addr) :
+    ∃ σ' a, onMessage cd dom σ m = ok (σ', a) ∧ σ'.sess sid = σ.sess sid ∧ σ'.live[i]? = some (some sid) ∧
+      (SA.Props.C13.msgUid dom m = some i → σ' = σ ∧
+        (a = .drop ∨ a = .err 101 SA.Gen.errBadCodec ∨ ∃ c, a = .err c SA.Gen.errBadIp)) := by
+  have hs : sid < σ.heap.length := (hI.liveOk i sid hlive).1
+  obtain ⟨σ', a, h, _, hse, hlk⟩ := SA.Props.C13.C13_foreign_message_preserves cd hT dom σ hI m sid hs hforeign
+  refine ⟨σ', a, h, hse, hlk i hlive, ?_⟩
+  intro hid
+  obtain ⟨a', h', ha'⟩ := SA.Props.C13.C13_spoof_rejected cd hT dom σ m i sid hid hlive hforeign
+  rw [h] at h'
+  injection h' with h'
+  injection h' with h1 h2
+  subst h1; subst h2
+  exact ⟨rfl, ha'⟩
+
+/-- a two-slot server: address 1 holds identifier 0 (object 0), nobody holds identifier 1 -/
+def twoSlots : Srv :=
+  { live := [some 0, none], retired := [none, none], heap := [{ uid := 0, owner := 1, last := 0 }], now := 5 }
+
+/-- **witness**: if set-options handled the close flag before looking at the validation error (the variant
+    `hOptionsCloseFirst`), a close request from address 2 for identifier 0 would retire the session of address 1
+    and be answered with success; today's `hOptions` leaves the state alone and answers BADIP.  Kernel-checked. -/
+def wCodec : Codec := { dec := fun _ _ => none, encLen := fun _ n => n }
+def wClose : Options := { closed := some true }
+def wFrom2 : Msg := { addr := 2, qtype := 10, name := [] }
+
+theorem C12_witness_close_before_refusal :
+    (hOptionsCloseFirst wCodec 4 twoSlots wFrom2 0 wClose).isPanic = false ∧
+    (SA.Props.C13.stateOf (hOptionsCloseFirst wCodec 4 twoSlots wFrom2 0 wClose)).live = [none, none] ∧
+    (SA.Props.C13.stateOf (hOptionsCloseFirst wCodec 4 twoSlots wFrom2 0 wClose)).retired = [some 0, none] ∧
+    ((SA.Props.C13.stateOf (hOptionsCloseFirst wCodec 4 twoSlots wFrom2 0 wClose)).sess 0).closed = true ∧
+    SA.Props.C13.ansOf (hOptionsCloseFirst wCodec 4 twoSlots wFrom2 0 wClose) = some .optionsOk ∧
+    hOptions wCodec 4 twoSlots wFrom2 0 wClose = ok (twoSlots, .err 111 SA.Gen.errBadIp) := by
+  decide
+
 /-! ## site coverage -/
 
 /-- **site coverage**: every index / slice / unchecked type assertion / func-field call that the extractor finds in the
@@ -191,6 +284,14 @@ example : SA.DnsClient.decodeAnswer { dec := fun _ _ => none, encLen := fun _ n 
 example : SA.DnsClient.decodeAnswer { dec := fun _ _ => none, encLen := fun _ n => n } 4 84 [.txt [], .null [1], .cname [97]] = ok none := by decide
 example : chunks 3 1 [7, 8, 9] = [[7], [8], [9]] := by decide
 example : ({ dec := fun _ _ => none, encLen := fun _ n => n } : Codec).Total := fun _ _ => rfl   -- the hypothesis is satisfiable
+-- the hypothesis of `C12_stranger_commands_inert` is met by address 2 on `twoSlots`, and not by address 1
+example : (∀ i sid : Nat, twoSlots.live[i]? = some (some sid) → (twoSlots.sess sid).owner ≠ 2) := by
+  intro i sid h
+  match i, h with
+  | 0, h => simp [twoSlots] at h; subst h; decide
+  | 1, h => simp [twoSlots] at h
+  | n + 2, h => simp [twoSlots] at h
+example : twoSlots.live[0]? = some (some 0) ∧ (twoSlots.sess 0).owner = 1 := by decide
 example : ¬ panickyCodec.Total := fun h => by have := h 0 []; simp [panickyCodec] at this
 
 end SA.Props.C12
@@ -204,5 +305,10 @@ end SA.Props.C12
 #print axioms SA.Props.C12.C12_bounded_work_write_loop
 #print axioms SA.Props.C12.C12_bounded_work_fragment_test
 #print axioms SA.Props.C12.C12_stray_preserves_sessions
+#print axioms SA.Props.C12.C12_handlers_refuse_before_acting
+#print axioms SA.Props.C12.C12_stranger_commands_inert
+#print axioms SA.Props.C12.C12_stranger_message_deletable
+#print axioms SA.Props.C12.C12_foreign_command_preserves_established
+#print axioms SA.Props.C12.C12_witness_close_before_refusal
 #print axioms SA.Props.C12.C12_site_coverage
 #print axioms SA.Props.C12.C12_reserved_commands_present
